@@ -106,6 +106,17 @@ CLAIMS = {
             "Trusted: enum.py of the running interpreter, engine A. Unknown state-keeping idioms give ANALYSIS-ERROR.",
             "AST effect/ownership rules on one method + signature binding against parsed stdlib source",
             "A", "DESIGN.md section 4, C14"),
+    "C20": ("other",
+            "Import-binding simulation: Python's import semantics executed abstractly over the ASTs of the static "
+            "packages and of the package the generator writes, for a family of 44 representative spec trees (no cross "
+            "reference, every single cross-directory reference direction, all safe directions at once) and every possible "
+            "first import; the final name->object maps must resolve every documented module path to that module and bind "
+            "every public name and generated class to one object at home and at the top. Carries open known findings "
+            "(F9: references into a packet directory from root/map).",
+            "Trusted: engine D's model of import semantics (audited against CPython 3.12 during development); the "
+            "rendering of generated modules as import lines + one class.",
+            "abstract execution of import semantics over package ASTs (no code is run)",
+            "D", "DESIGN.md section 4, C20"),
 }
 
 NOT_YET = "check not built yet in this session (engine stage pending, see DESIGN.md section 8); no proxy is substituted"
